@@ -127,6 +127,11 @@ def taint_function(fi: FuncInfo):
                     ok = True
                 elif isinstance(par, ast.Expr):
                     ok = True       # value discarded: only a raise-or-continue decision can depend on it
+                elif isinstance(par, (ast.Raise, ast.Assert)):
+                    ok = True       # text of an error message
+                elif isinstance(par, ast.If) and fld == "test" and not par.orelse and par.body and isinstance(par.body[-1], ast.Raise) \
+                        and all(isinstance(b_, (ast.Raise, ast.Expr)) for b_ in par.body):
+                    ok = True       # a raise-or-continue decision
                 elif isinstance(par, ast.Return) and fi.qual.endswith("_hash_args"):
                     ok = True
                 elif isinstance(par, ast.AugAssign) and isinstance(par.target, ast.Name):
